@@ -37,15 +37,25 @@ type MonCtx struct {
 	rank int64
 	// Init index and path of the pre-state (lazily computed)
 	pathFn func() (int, []Event)
+	// Extra is merged into the replay record of violations.
+	Extra map[string]interface{}
+}
+
+// NewMonCtx builds a monitor context outside the explorer (replays, fault runs).
+func NewMonCtx(sc *Scenario, pre *State, out *StepOut, run *h.Run, path func() (int, []Event)) *MonCtx {
+	return &MonCtx{Sc: sc, Pre: pre, Out: out, Run: run, pathFn: path}
 }
 
 // Violate records a violation of the running property with a replayable trace.
 func (c *MonCtx) Violate(monitor, sig, msg string) {
 	initIdx, path := c.pathFn()
 	evs := append(append([]Event{}, path...), c.Out.Ev)
-	c.Run.Violate(h.Violation{Signature: sig, Monitor: monitor, Message: msg, Rank: c.rank,
-		Replay: map[string]interface{}{"scenario": c.Sc.Name, "init": initIdx, "events": evs, "trace": traceStrings(evs),
-			"pre_state": c.Pre.Describe(), "post_state": c.Out.Next.Describe(), "calls": CallStrings(c.Out.Log)}})
+	rep := map[string]interface{}{"scenario": c.Sc.Name, "init": initIdx, "events": evs, "trace": traceStrings(evs),
+		"pre_state": c.Pre.Describe(), "post_state": c.Out.Next.Describe(), "calls": CallStrings(c.Out.Log)}
+	for k, v := range c.Extra {
+		rep[k] = v
+	}
+	c.Run.Violate(h.Violation{Signature: sig, Monitor: monitor, Message: msg, Rank: c.rank, Replay: rep})
 	if c.ex != nil && !c.Run.IsKnown(sig) {
 		atomic.StoreInt32(&c.ex.stop, 1)
 	}
@@ -150,6 +160,7 @@ func StepWithFault(t *testing.T, sc *Scenario, s *State, ev Event, fn func(idx i
 	InBubble(t, s.Now, func() {
 		l := NewLive(s, sc.Cfg)
 		l.API.FaultFn = fn
+		l.API.NoStickyStop = true
 		out = Apply(l, s, ev, sc.Tpls)
 	})
 	for _, c := range out.Log {
